@@ -224,8 +224,11 @@ def gen_case(rng, uid, force=None):
                     trajs[-1]['vals'][str(i)][k] = v
                     return {'uid': uid, 'fs_uid': force.get('fs_uid', uid), 'sets': sets, 'layout': layout,
                             'apart': apart, 'parts': parts, 'trajs': trajs, 'out_of_dim': True, 'ood_set': i}
+    append_at = None
+    if layout in ('single', 'assoc', 'assocn') and ntraj >= 2 and (force.get('append') or rng.random() < 0.2):
+        append_at = rng.randint(1, ntraj - 1)          # trajectories from this index on are added in an APPEND session
     return {'uid': uid, 'fs_uid': force.get('fs_uid', uid), 'sets': sets, 'layout': layout, 'apart': apart,
-            'parts': parts, 'trajs': trajs, 'out_of_dim': False}
+            'parts': parts, 'trajs': trajs, 'out_of_dim': False, 'append_at': append_at}
 
 
 # ---------------------------------------------------------------------------------------------------
@@ -522,6 +525,9 @@ class CaseRun:
         self.written = []              # per trajectory {id: [canon]}
         self.diffs = []                # per trajectory [(id, field index, [kinds])]
         self.file_species = {}         # id -> species dimension (enum positions) of the file holding the set
+        self.session_reads = None      # append sessions: what was read INSIDE the session, per index
+        self.session_diffs = None
+        self.session_rorder = []
 
 
 def run_case_impl(case, tmp: Path) -> CaseRun:
@@ -607,6 +613,38 @@ def run_case_impl(case, tmp: Path) -> CaseRun:
     def order(ts):
         return [id_of[k] for k in ts._nc]
 
+    def read_back(ts, idxs):
+        """ask the open store for the trajectories idxs (in that order); per index the canonical values and the
+        differences the independent comparer finds against what was ADDED at that index"""
+        reads, alldiffs = [None] * len(trajs), [None] * len(trajs)
+        for k in idxs:
+            try:
+                r = ts[k]
+            except BaseException as e:  # noqa: BLE001
+                reads[k] = ['err', err_class(e), f'{type(e).__name__}: {e}'[:300]]
+                alldiffs[k] = [['read-error', err_class(e)]]
+                continue
+            vals, diffs = {}, []
+            if len(r) != len(trajs[k]):
+                diffs.append([0, -1, ['length-differs']])
+            for i in ids:
+                row = []
+                for j, nm in enumerate(fnames[i]):
+                    got = r._data[nm] if nm in r._data else None
+                    if hasattr(got, 'shape') and got.ndim == 1:
+                        got = got[:len(r)]
+                    row.append(canon_value(got, metas[i][j], interner))
+                    d = compare_field(expected_objs[k][i][j], got, metas[i][j])
+                    if d:
+                        diffs.append([i, j, d])
+                vals[str(i)] = row
+            reads[k] = ['ok', vals]
+            alldiffs[k] = diffs
+        return reads, alldiffs
+
+    def assoc_paths():
+        return list(part_paths) if layout == 'assocn' else [apart_path]
+
     # ---- phase 1: create + add -------------------------------------------------------------
     kwargs = {'base_file': base_path}
     if layout == 'assoc':
@@ -615,9 +653,17 @@ def run_case_impl(case, tmp: Path) -> CaseRun:
         kwargs['associated_files'] = [(pp, [names[i] for i in part]) for pp, part in zip(part_paths, parts)]
     if layout == 'saved':
         kwargs = {}                          # an in-memory store, persisted afterwards with save()
+    append_at = case.get('append_at')
     ts = TrajectoryStore.create(**kwargs)
     try:
         for k, t in enumerate(trajs):
+            if append_at is not None and k == append_at:
+                # the rest is added in ONE APPEND session on the closed store
+                ts.close()
+                akw = {'base_file': base_path}
+                if apart:
+                    akw['associated_files'] = assoc_paths()
+                ts = TrajectoryStore.append(**akw)
             try:
                 ts.add(t)
             except BaseException as e:  # noqa: BLE001
@@ -637,6 +683,13 @@ def run_case_impl(case, tmp: Path) -> CaseRun:
                                f'save: {type(e).__name__}: {e}'[:300]]
                 return run
             run.worder = order(ts)
+        if append_at is not None and append_at < len(trajs):
+            # still inside the append session: read EVERY index, the ones that were in the file before the
+            # session first (they are not in the cache), then the new ones, then an old one again
+            run.session_rorder = order(ts)
+            old_idx, new_idx = list(range(append_at)), list(range(append_at, len(trajs)))
+            idxs = old_idx[::-1] + new_idx + old_idx[:1]
+            run.session_reads, run.session_diffs = read_back(ts, idxs)
     finally:
         try:
             ts.close()
@@ -683,7 +736,7 @@ def run_case_impl(case, tmp: Path) -> CaseRun:
     # ---- reopen and read everything back ----------------------------------------------------------
     kwargs = {'base_file': base_path}
     if apart:
-        kwargs['associated_files'] = list(part_paths) if layout == 'assocn' else [apart_path]
+        kwargs['associated_files'] = assoc_paths()
     try:
         ts = TrajectoryStore.open(**kwargs)
     except BaseException as e:  # noqa: BLE001
@@ -695,35 +748,11 @@ def run_case_impl(case, tmp: Path) -> CaseRun:
         for i in ids:
             sp = ts._nc[names[i]].species
             run.file_species[str(i)] = None if sp is None else [sp_index[s] for s in sp]
-        reads = [None] * len(trajs)
-        run.diffs = [None] * len(trajs)
         import zlib
         how = zlib.crc32(uid.encode()) % 3          # the order in which trajectories are asked for must not matter
         idxs = list(range(len(trajs)))
         idxs = idxs if how == 0 else idxs[::-1] if how == 1 else idxs[1:] + idxs[:1]
-        for k in idxs:
-            try:
-                r = ts[k]
-            except BaseException as e:  # noqa: BLE001
-                reads[k] = ['err', err_class(e), f'{type(e).__name__}: {e}'[:300]]
-                run.diffs[k] = [['read-error', err_class(e)]]
-                continue
-            vals, diffs = {}, []
-            if len(r) != len(trajs[k]):
-                diffs.append([0, -1, ['length-differs']])
-            for i in ids:
-                row = []
-                for j, nm in enumerate(fnames[i]):
-                    got = r._data[nm] if nm in r._data else None
-                    if hasattr(got, 'shape') and got.ndim == 1:
-                        got = got[:len(r)]
-                    row.append(canon_value(got, metas[i][j], interner))
-                    d = compare_field(expected_objs[k][i][j], got, metas[i][j])
-                    if d:
-                        diffs.append([i, j, d])
-                vals[str(i)] = row
-            reads[k] = ['ok', vals]
-            run.diffs[k] = diffs
+        reads, run.diffs = read_back(ts, idxs)
         run.outcome = ['Added', reads]
     finally:
         try:
